@@ -253,6 +253,35 @@ def zGainCrossings (num den : List K) (eps : K) (roots : List (Cx K)) :
     List (Cx K × Option (Cx K)) :=
   sortByAng (((zFilter eps roots).filter fun z => 0 < z.im).map fun z => (z, respAt num den z))
 
+/-! #### discrete stability margin: minimality over the unit circle
+
+`_poly_z_wstab` hands the search for the minimum of `|1 + L(exp(jθ))|` to `scipy.optimize.minimize`
+(a parameter of the model).  What the property claims about its result — "the stability margin is
+the minimum over frequency of `|1 + L|`" — is `CircleMin`; the model checks it against a list of
+candidate points that lie *exactly* on the unit circle (`smRefuted`): one such point with a smaller
+`|1 + L|` refutes minimality. -/
+
+/-- `r` is a smallest value of `|1 + L(z)|` over the unit circle (where `L(z)` exists). -/
+def CircleMin (num den : List K) (r : Cx K) : Prop :=
+  ∀ z r', normSq z = 1 → respAt num den z = some r' → smKey r ≤ smKey r'
+
+/-- the candidate points that lie exactly on the unit circle, with the loop response there
+(points off the circle and poles of the loop are dropped). -/
+def circleWitnesses (num den : List K) (ws : List (Cx K)) : List (Cx K × Cx K) :=
+  ws.filterMap fun z =>
+    if normSq z = 1 then (respAt num den z).map fun r => (z, r) else none
+
+/-- the witness with the smallest `|1 + L|` (the first one among equals). -/
+def bestWitness (num den : List K) (ws : List (Cx K)) : Option (Cx K × Cx K) :=
+  argminBy (fun c => smKey c.2) (circleWitnesses num den ws)
+
+/-- `true` when some candidate on the unit circle has a strictly smaller `|1 + L|` than the
+response `r` at the reported point. -/
+def smRefuted (num den : List K) (ws : List (Cx K)) (r : Cx K) : Bool :=
+  match bestWitness num den ws with
+  | some w => decide (smKey w.2 < smKey r)
+  | none => false
+
 /-- `_likely_numerical_inaccuracy`: `norm(p1) < 1e-4 * norm(p2)` (`tol2 = (1e-4)²`). -/
 def likelyInaccurate [DecidableEq K] (num den : List K) (tol2 : K) : Bool :=
   decide (coeffNormSq (zMag1P1 num den) < tol2 * coeffNormSq (zMag1P2 den))
